@@ -22,7 +22,7 @@ try:
     r = subprocess.run(["patch", "-p1", "-s"] + (["-R"] if rev else []) + ["-i", patch], cwd=repo, stdout=subprocess.PIPE, stderr=subprocess.STDOUT, text=True)
     if r.returncode != 0:
         print("PATCH DOES NOT APPLY:\n" + r.stdout); sys.exit(3)
-    env = dict(os.environ, DMX_REPO=repo, DMX_OUT_DIR=os.path.join(tmp, "out"))
+    env = dict(os.environ, DMX_REPO=repo, DMX_OUT_DIR=os.path.join(tmp, "out"), DMX_CACHE=os.path.join(tmp, "cache"))
     fired = []
     for pid in ids:
         r = subprocess.run([os.path.join(V, "check"), pid, "quick"], env=env, stdout=subprocess.PIPE, stderr=subprocess.STDOUT, text=True)
